@@ -1,6 +1,6 @@
 #!/usr/bin/env python3
-"""Apply every /verif/seeded/<id>/patch.diff to /repo in turn, run the check of the property it breaks, record what was
-reported, and undo the patch straight afterwards.  Writes /verif/seeded/RESULTS.json."""
+"""Apply every /verif/seeded/<id>/patch.diff to a scratch worktree of /repo in turn, run the check of the property it breaks against it, record what was
+reported, and remove the worktree straight afterwards.  Writes /verif/seeded/RESULTS.json."""
 import os, json, subprocess, sys, glob
 VERIF = os.path.dirname(os.path.dirname(os.path.abspath(__file__)))
 res = {}
@@ -10,16 +10,23 @@ for d in sorted(glob.glob(os.path.join(VERIF, "seeded", "*", "patch.diff"))):
     if only and name not in only: continue
     meta = json.load(open(os.path.join(sd, "meta.json")))
     prop = meta["property"]
-    st = subprocess.run(["git", "-C", "/repo", "status", "--porcelain"], capture_output=True, text=True).stdout.strip()
-    assert st == "", "/repo is not clean: " + st
-    a = subprocess.run(["git", "-C", "/repo", "apply", d], capture_output=True, text=True)
-    if a.returncode != 0:
-        res[name] = dict(property=prop, applied=False, note=a.stderr[-300:]); continue
+    # the seeded tree is a scratch worktree of /repo HEAD (outside /repo and /verif, removed straight afterwards); the checks are pointed at it with VERIF_REPO, so
+    # /repo itself is never touched and a check running on /repo at the same time is not disturbed
+    wt = "/var/tmp/verif-seed-wt/%s" % name
+    subprocess.run(["git", "-C", "/repo", "worktree", "remove", "--force", wt], capture_output=True)
+    subprocess.run(["git", "-C", "/repo", "worktree", "prune"], capture_output=True)
+    w = subprocess.run(["git", "-C", "/repo", "worktree", "add", "--detach", wt, "HEAD"], capture_output=True, text=True)
+    if w.returncode != 0:
+        res[name] = dict(property=prop, applied=False, note=w.stderr[-300:]); continue
     try:
+        a = subprocess.run(["git", "-C", wt, "apply", d], capture_output=True, text=True)
+        if a.returncode != 0:
+            res[name] = dict(property=prop, applied=False, note=a.stderr[-300:]); continue
         p = subprocess.run([os.path.join(VERIF, "check"), prop], capture_output=True, text=True, timeout=3600,
-                           env=dict(os.environ, VERIF_EVIDENCE_DIR="/var/tmp/verif-seed-evidence"))
+                           env=dict(os.environ, VERIF_EVIDENCE_DIR="/var/tmp/verif-seed-evidence", VERIF_REPO=wt, VERIF_REPLAY_TARGET="/var/tmp/verif-replay-target-seeds"))
     finally:
-        subprocess.run(["git", "-C", "/repo", "checkout", "--", "."], check=True)
+        subprocess.run(["git", "-C", "/repo", "worktree", "remove", "--force", wt], capture_output=True)
+        subprocess.run(["git", "-C", "/repo", "worktree", "prune"], capture_output=True)
     lines = [l for l in p.stdout.split("\n") if l.startswith(("VIOLATION", "INFRA", "SUMMARY", "KNOWN"))]
     res[name] = dict(property=prop, applied=True, exit=p.returncode, detected=(p.returncode == 1), output=lines)
     print(name, "exit", p.returncode, "|", "; ".join(l.split(" obligation=")[-1] for l in lines if l.startswith("VIOLATION"))[:200], flush=True)
